@@ -39,6 +39,17 @@ CHECKS['C07'] = ('4/C07',
     'code-point lexicographic order); float NaN/inf are outside the statement.',
     'Lean 4 proof (order isomorphism to a lexicographic key) + model/implementation correspondence on all pool pairs')
 
+CHECKS['C04'] = ('4/C04',
+    'Lean 4 theorems over the model parser (precedence climbing driven by the precedence table regenerated from '
+    'Parser.precedence): EVERY rendering of EVERY expression tree (any shape and depth, minimal, full or arbitrarily redundant '
+    'parentheses) parses back to that tree, hence evaluates to the value of the tree; the regenerated table is proved to have the '
+    'shape the statement prescribes (comparisons < + - < * / < unary minus, & above comparisons, all left-associative). That '
+    'ply\'s LALR tables implement this parser is tied by comparing the trees the real tables build (semantic actions replaced '
+    'after table construction) with the model\'s trees, and values with exact rational evaluation, on seeded and enumerated trees.',
+    'Trusted: Lean kernel; extract.py; ply.yacc table construction is MODELLED (tree-shape correspondence, not proved); float '
+    'arithmetic vs exact rationals (1e-9). & versus + - * / is not fixed by the statement.',
+    'Lean 4 proof (parser/printer round trip by induction on renderings, fuel monotonicity) + generated precedence table + tree-shape correspondence with ply')
+
 NOT_APPLICABLE = {}
 
 
